@@ -354,6 +354,9 @@ func (x *Exec) applyContract(st *State, c *Contract, fn *ssa.Function, sig *type
 	x.logCall(st, key, args, ats)
 	// havoc
 	st.bumpWM()
+	if modifiesAnything(c) {
+		unsup("call of %s whose contract declares no frame (modifies anything)", key)
+	}
 	x.havocLocsEnv(st, e, c.ByKind("modifies"))
 	// result
 	res := x.freshResult(st, "r."+shortKey(key), resT)
